@@ -159,6 +159,7 @@ type proc struct {
 	f        *counter.VerifFile
 	counters []*counter.Counter
 	stacks   []*counter.StackCounter
+	foreign  bool // another program whose counter file happens to have the same name: its open must fail and leave the file alone
 }
 
 type world struct {
@@ -174,15 +175,16 @@ type world struct {
 	begunHi map[string]uint64 // carries out of begun: the saturation family exceeds 2^64
 	added   map[string]uint64 // raw counter name -> sum of amounts of Add calls that returned (by live or dead procs)
 	// per process accounting for C04
-	begunBy map[*simrt.Proc]map[string]uint64
-	doneBy  map[*simrt.Proc]map[string]uint64
-	prevVal map[string]uint64 // path|name -> last decoded value (monotonicity)
-	prevLim map[string]uint32
-	viol    *hlib.Violation
-	strict  bool             // every snapshot must decode strictly
-	bi      *debug.BuildInfo // build info of this world's processes (nil: the default)
-	satur   bool
-	stepChk func()
+	begunBy  map[*simrt.Proc]map[string]uint64
+	doneBy   map[*simrt.Proc]map[string]uint64
+	prevVal  map[string]uint64 // path|name -> last decoded value (monotonicity)
+	prevLim  map[string]uint32
+	prevMeta map[string]string
+	viol     *hlib.Violation
+	strict   bool             // every snapshot must decode strictly
+	bi       *debug.BuildInfo // build info of this world's processes (nil: the default)
+	satur    bool
+	stepChk  func()
 }
 
 var buildInfo = &debug.BuildInfo{
@@ -194,7 +196,7 @@ var buildInfo = &debug.BuildInfo{
 func newWorld(c *hlib.RunCtx, start time.Time) *world {
 	w := &world{c: c, prop: c.Prop, views: map[string]*view{}, begun: map[string]uint64{}, begunHi: map[string]uint64{}, added: map[string]uint64{},
 		begunBy: map[*simrt.Proc]map[string]uint64{}, doneBy: map[*simrt.Proc]map[string]uint64{},
-		prevVal: map[string]uint64{}, prevLim: map[string]uint32{}}
+		prevVal: map[string]uint64{}, prevLim: map[string]uint32{}, prevMeta: map[string]string{}}
 	w.tele = filepath.Join(c.Dir, "tele")
 	w.local = filepath.Join(w.tele, "local")
 	telemetry.Default = telemetry.NewDir(w.tele)
@@ -301,6 +303,10 @@ func (w *world) checkSnapshot(v *view) {
 		w.fail("limit-monotone", "%s: allocation limit went from %#x to %#x", filepath.Base(v.path), w.prevLim[v.path], d.Limit)
 	}
 	w.prevLim[v.path] = d.Limit
+	if pm, ok := w.prevMeta[v.path]; ok && pm != d.MetaRaw {
+		w.fail("metadata-changed", "%s: the header metadata of an initialised file changed from %q to %q", filepath.Base(v.path), pm, d.MetaRaw)
+	}
+	w.prevMeta[v.path] = d.MetaRaw
 	for name, val := range d.Counts {
 		k := v.path + "|" + name
 		if val < w.prevVal[k] {
